@@ -202,10 +202,12 @@ def new_value(kind, flavor="ascii"):
     return elem(kind, 10, flavor)
 
 
-def new_values(kind, m, flavor="ascii"):
-    """the right-hand side of a slice assignment"""
+def new_values(kind, m, flavor="ascii", rhs="same"):
+    """the right-hand side of a slice assignment: of the container's own type, or another iterable"""
     v = make(kind, range(10, 10 + m), flavor)
-    return bytes(v) if kind == "bytearray" else v
+    if rhs == "same":
+        return v
+    return {"list": tuple, "tuple": list, "str": list, "bytes": bytearray, "bytearray": bytes}[kind](v)
 
 
 def enc(v):
